@@ -10,6 +10,7 @@ REPLAY_DIR = os.environ.get('VERIF_REPLAY_DIR') or os.path.join(VERIF, 'replays'
 KNOWN_FILE = os.path.join(VERIF, 'known_findings.json')
 NPROC = int(os.environ.get('VERIF_PROCS', '16'))
 MAX_PER_KEY = 3
+REPLAYER = None       # set by mc.run to the property module's replay(record) -> exit status
 
 
 def jsonable(x):
@@ -161,6 +162,7 @@ def finish(prop, tier, seed, level, stats, t0, rule, nontrivial, evaluations, ex
     n_viol = 0
     n_known = 0
     printed_known = set()
+    replay_log = {}
     for key in stats.viol:
         recs = stats.viol[key]
         unknown = [r for r in recs if classify(prop, r, known) is None]
@@ -179,6 +181,18 @@ def finish(prop, tier, seed, level, stats, t0, rule, nontrivial, evaluations, ex
             if n_viol <= 12:
                 print(f'VIOLATION property={prop} replay={path}')
                 print(f"  [{key}] x{stats.viol_count[key]}: {unknown[0].get('what')}")
+                if REPLAYER is not None and n_viol <= 6:
+                    # determinism: the recorded case is re-executed twice without the explorer before it is trusted
+                    outcomes = []
+                    for _ in range(2):
+                        try:
+                            import io, contextlib
+                            with contextlib.redirect_stdout(io.StringIO()):
+                                outcomes.append(REPLAYER(unknown[0]))
+                        except Exception as e:
+                            outcomes.append(f'replay raised {e!r}')
+                    replay_log[key] = outcomes
+                    print(f"  replayed twice without the explorer: {'reproduced both times' if outcomes == [1, 1] else 'NOT reproduced identically: ' + str(outcomes)}")
     cov = {
         'evaluations': int(evaluations),
         'distinct_nontrivial': int(nontrivial),
@@ -190,6 +204,7 @@ def finish(prop, tier, seed, level, stats, t0, rule, nontrivial, evaluations, ex
         'observation_digest': stats.hd.hex()[:32],
         'violation_keys': {k: int(v) for k, v in sorted(stats.viol_count.items())},
         'known_findings_reported': sorted(printed_known),
+        'violations_replayed': {k: [str(x) for x in v] for k, v in replay_log.items()},
     }
     if states is not None:
         cov['states'] = int(states)
